@@ -473,13 +473,21 @@ package shaping
 // Assumed contract of the Fontmap interface (documented: "It must always return a valid (non nil) *font.Face"; determinism
 // is the property's implicit hypothesis): ResolveFace is a function faceFor(fontmap, rune) and does not touch the runs.
 //@ opaque faceFor(fm Fontmap, r rune) region
-//@ opaque ignorableRune(r rune) bool
+//@ spec ignorableRune(r rune) bool = segmenter.inTable(unicode.Cc, r) || segmenter.inTable(unicode.Cs, r) || segmenter.inTable(unicode.Zl, r) || segmenter.inTable(unicode.Zp, r) || (segmenter.inTable(unicode.Zs, r) && r != 0x1680) || hbIgnorable(r)
 //@ trusted Fontmap.ResolveFace
 //@   params fm, r
 //@   ensures [non-nil] result != nil && rid(result) == faceFor(fm, r) && off(result) == 0
 //@   modifies nothing
-//@ trusted ignoreFaceChange
+// ignoreFaceChange, from its documentation: controls, surrogates, line and paragraph separators, space separators other
+// than U+1680 OGHAM SPACE MARK, and default ignorables never force a change of face.
+//@ opaque hbIgnorable(r rune) bool
+//@ trusted std:harfbuzz.IsDefaultIgnorable
+//@   ensures [def] result == hbIgnorable(ch)
+//@   modifies nothing
+//@ func ignoreFaceChange C07
+//@   mode int
 //@   ensures [def] result == ignorableRune(r)
+//@   ensures [as-documented] result == (segmenter.inTable(unicode.Cc, r) || segmenter.inTable(unicode.Cs, r) || segmenter.inTable(unicode.Zl, r) || segmenter.inTable(unicode.Zp, r) || (segmenter.inTable(unicode.Zs, r) && r != 0x1680) || hbIgnorable(r))
 //@   modifies nothing
 //
 // sameRunFields: everything a splitting pass must not touch.
